@@ -159,6 +159,10 @@ class TaskLoader:
                 )
             )
             raise syntax_err from ex
+        except ConductorError:
+            # E.g., the user aborted Conductor while the included file was
+            # being evaluated. This is not a parse error.
+            raise
         except Exception as ex:
             run_err = TaskParseError(error_details=str(ex))
             run_err.add_file_context(
